@@ -189,3 +189,61 @@ Proof.
     lia |]).
   destruct Hp.
 Qed.
+
+(* ---- the refresh endpoint with its form ---- *)
+Lemma refresh_ignores_form c p f f' k : refresh c p f k = refresh c p f' k.
+Proof. reflexivity. Qed.
+
+Theorem refresh_sound cn blocks p f k id bl :
+  forallb wf_block blocks = true ->
+  refresh (minted cn blocks) p f k = Some (id, bl) ->
+  id = cn /\ bl = blocks /\ k = true /\ exists b, In b blocks /\ contains b p = true.
+Proof.
+  intros W. unfold refresh, minted. cbn [rc_ext rc_cn].
+  destruct (verify_ip (ext_of blocks) p) eqn:V; [|discriminate].
+  destruct k; [|discriminate].
+  rewrite (extract_minted _ W). intros H. injection H as E1 E2. subst id bl.
+  repeat split. apply (minted_iff blocks p W). exact V.
+Qed.
+
+Theorem refresh_complete cn blocks p f :
+  forallb wf_block blocks = true ->
+  (exists b, In b blocks /\ contains b p = true) ->
+  refresh (minted cn blocks) p f true = Some (cn, blocks).
+Proof.
+  intros W E. unfold refresh, minted. cbn [rc_ext rc_cn].
+  rewrite (proj2 (minted_iff blocks p W) E). rewrite (extract_minted _ W). reflexivity.
+Qed.
+
+(* however often a certificate is refreshed, from wherever, with whatever forms: the certificate in
+   hand is the one that was minted *)
+Theorem refresh_chain_same steps : forall cn blocks c',
+  forallb wf_block blocks = true ->
+  refresh_chain (minted cn blocks) steps = Some c' -> c' = minted cn blocks.
+Proof.
+  induction steps as [|[p f] r IH]; intros cn blocks c' W H; simpl in H.
+  - inversion H. reflexivity.
+  - destruct (refresh (minted cn blocks) p f true) as [[id bl]|] eqn:R; [|discriminate].
+    destruct (refresh_sound _ _ _ _ _ _ _ W R) as [-> [-> _]]. apply IH; assumption.
+Qed.
+
+(* so a refreshed certificate is accepted only from inside the blocks of the FIRST one *)
+Theorem refresh_chain_reach steps cn blocks c' q :
+  forallb wf_block blocks = true ->
+  refresh_chain (minted cn blocks) steps = Some c' ->
+  verify_ip (rc_ext c') q = true -> exists b, In b blocks /\ contains b q = true.
+Proof.
+  intros W H V. rewrite (refresh_chain_same _ _ _ _ W H) in V. cbn [minted rc_ext] in V.
+  apply (minted_iff blocks q W). exact V.
+Qed.
+
+(* the narrowing variant that compares base addresses only widens: /24 -> /8 *)
+Theorem refresh_narrowing_by_base_refuted :
+  exists cn blocks p req id bl q,
+    forallb wf_block blocks = true /\
+    refresh_narrowing_by_base (minted cn blocks) p req = Some (id, bl) /\
+    verify_ip (ext_of bl) q = true /\ verify_ip (ext_of blocks) q = false.
+Proof.
+  exists [115], [mk 10 0 0 0 24], (V4 10 0 0 7), [mk 10 0 0 0 8], [115], [mk 10 0 0 0 8], (V4 10 99 0 1).
+  vm_compute. repeat split; reflexivity.
+Qed.
